@@ -412,9 +412,14 @@ class Session:
                 return out
             if kind == "raw":
                 text = self.raw_text(op[1])
-                v = self.cb._unbox(self.brine.load(self.brine.dump(self.raw_package(op[1]))))
-                out = "%s => %s" % (text, self.describe(v, "b"))
-                del v
+                try:
+                    v = self.cb._unbox(self.brine.load(self.brine.dump(self.raw_package(op[1]))))
+                    out = "%s => %s" % (text, self.describe(v, "b"))
+                    del v
+                finally:
+                    # forged references have no box behind them: let their release notices be processed now, as the
+                    # model does, not whenever A happens to serve next
+                    self.call("ping")
                 return out
             if kind == "forget":
                 self.call("forget")
